@@ -1,0 +1,343 @@
+//! Observation hooks for external verification harnesses
+//!
+//! Everything in this module is compiled only with the `verif_hooks` feature.
+//! Nothing here changes the behaviour of the interpreter.
+#![allow(missing_docs)]
+
+use crate::{Array, ArrayFlags, ArrayValue, Boxed, Complex, Uiua, Value, cowslice::CowSlice};
+
+/// Storage/flag summary of a value: (boolean, sorted_up, sorted_down)
+pub fn flags(v: &Value) -> (bool, bool, bool) {
+    let f = v.meta.flags;
+    (
+        f.contains(ArrayFlags::BOOLEAN),
+        f.contains(ArrayFlags::SORTED_UP),
+        f.contains(ArrayFlags::SORTED_DOWN),
+    )
+}
+
+/// Set or clear the sortedness marks of a value (used to build storage variants)
+pub fn set_sorted(v: &mut Value, up: bool, down: bool) {
+    v.meta.mark_sorted_up(up);
+    v.meta.mark_sorted_down(down);
+}
+
+/// Clear all flags
+pub fn clear_flags(v: &mut Value) {
+    if v.meta.get_mut().is_some() {
+        v.meta.reset_flags();
+    }
+}
+
+/// Raw data length of the backing buffer window
+pub fn data_len(v: &Value) -> usize {
+    match v {
+        Value::Num(a) => a.data.len(),
+        Value::Byte(a) => a.data.len(),
+        Value::Complex(a) => a.data.len(),
+        Value::Char(a) => a.data.len(),
+        Value::Box(a) => a.data.len(),
+        #[cfg(feature = "ga")]
+        Value::Mv(a) => a.data.len(),
+    }
+}
+
+fn check_array<T: ArrayValue>(arr: &Array<T>, path: &str) -> Result<(), String> {
+    let elems: usize = if arr.shape.contains(&0) {
+        0
+    } else {
+        arr.shape.iter().product()
+    };
+    if elems != arr.data.len() {
+        return Err(format!(
+            "{path}: shape {:?} demands {elems} elements but data has {}",
+            arr.shape,
+            arr.data.len()
+        ));
+    }
+    let up = arr.meta.is_sorted_up();
+    let down = arr.meta.is_sorted_down();
+    if (up || down) && arr.rank() > 0 {
+        let rc = arr.row_count();
+        let rl = arr.row_len();
+        let data = arr.data.as_slice();
+        for i in 1..rc {
+            let prev = &data[(i - 1) * rl..i * rl];
+            let row = &data[i * rl..(i + 1) * rl];
+            let ord = (prev.iter().zip(row))
+                .map(|(a, b)| a.array_cmp(b))
+                .find(|o| o.is_ne())
+                .unwrap_or(std::cmp::Ordering::Equal);
+            if up && ord.is_gt() {
+                return Err(format!(
+                    "{path}: {} array marked sorted-up is not (rows {} > {})",
+                    T::NAME,
+                    i - 1,
+                    i
+                ));
+            }
+            if down && ord.is_lt() {
+                return Err(format!(
+                    "{path}: {} array marked sorted-down is not (rows {} < {})",
+                    T::NAME,
+                    i - 1,
+                    i
+                ));
+            }
+        }
+    }
+    if let Some(keys) = &arr.meta.map_keys {
+        let (kv, indices, len, fix_depth) = keys.verif_dump();
+        check_value_at(&kv, &format!("{path}.keys"))?;
+        if fix_depth == 0 {
+            let rows = arr.row_count();
+            if len != rows {
+                return Err(format!("{path}: map has len {len} but {rows} rows"));
+            }
+            if kv.row_count() != indices.len() {
+                return Err(format!(
+                    "{path}: map key table has {} cells but {} indices",
+                    kv.row_count(),
+                    indices.len()
+                ));
+            }
+            let mut seen = vec![false; rows];
+            let mut present: Vec<Value> = Vec::new();
+            for (k, &i) in kv.rows().zip(&indices) {
+                if crate::verif::is_cell_placeholder(&k) {
+                    continue;
+                }
+                if i >= rows {
+                    return Err(format!("{path}: map key points at row {i} of {rows}"));
+                }
+                if seen[i] {
+                    return Err(format!("{path}: two map keys point at row {i}"));
+                }
+                seen[i] = true;
+                if present.iter().any(|p| *p == k) {
+                    return Err(format!("{path}: duplicate map key {k:?}"));
+                }
+                present.push(k);
+            }
+            if present.len() != len {
+                return Err(format!(
+                    "{path}: map len {len} but {} present keys",
+                    present.len()
+                ));
+            }
+        }
+    }
+    Ok(())
+}
+
+/// Whether a key-table row is an empty or tombstone cell
+pub fn is_cell_placeholder(k: &Value) -> bool {
+    use crate::algorithm::map::MapItem;
+    k.is_any_empty_cell() || k.is_any_tombstone()
+}
+
+fn check_value_at(v: &Value, path: &str) -> Result<(), String> {
+    match v {
+        Value::Num(a) => check_array(a, path),
+        Value::Byte(a) => {
+            check_array(a, path)?;
+            if a.meta.flags.is_boolean()
+                && let Some(b) = a.data.iter().find(|&&b| b > 1)
+            {
+                return Err(format!("{path}: array marked boolean contains {b}"));
+            }
+            Ok(())
+        }
+        Value::Complex(a) => check_array(a, path),
+        Value::Char(a) => check_array(a, path),
+        Value::Box(a) => {
+            check_array(a, path)?;
+            for (i, Boxed(b)) in a.data.iter().enumerate() {
+                check_value_at(b, &format!("{path}[{i}]"))?;
+            }
+            Ok(())
+        }
+        #[cfg(feature = "ga")]
+        Value::Mv(a) => check_array(a, path),
+    }
+}
+
+/// Non-panicking deep well-formedness validator, usable in release builds
+pub fn check_value(v: &Value) -> Result<(), String> {
+    check_value_at(v, "v")
+}
+
+/// Dump of a map's key table: (cells as rows, indices, len, fix depth)
+pub fn map_dump(v: &Value) -> Option<(Value, Vec<usize>, usize, usize)> {
+    v.meta.map_keys.as_ref().map(|k| k.verif_dump())
+}
+
+/// Where probing starts for a key in a table of the given capacity
+pub fn map_hash_start(key: &Value, capacity: usize) -> usize {
+    crate::algorithm::map::verif_hash_start(key, capacity)
+}
+
+/// Sizes of the interpreter's hidden stacks:
+/// [stack, under, call, local, recur, fill, unfill, fill_boundary]
+pub fn depths(env: &Uiua) -> [usize; 8] {
+    env.verif_depths()
+}
+
+/// A handle on a raw copy-on-write buffer (for driving `CowSlice` directly)
+#[derive(Clone)]
+pub struct Cow(CowSlice<f64>);
+
+impl Cow {
+    pub fn from_vec(v: Vec<f64>) -> Self {
+        Cow(v.into_iter().collect())
+    }
+    pub fn contents(&self) -> Vec<f64> {
+        self.0.as_slice().to_vec()
+    }
+    pub fn len(&self) -> usize {
+        self.0.len()
+    }
+    pub fn is_empty(&self) -> bool {
+        self.0.len() == 0
+    }
+    pub fn is_unique(&mut self) -> bool {
+        self.0.is_unique()
+    }
+    pub fn is_copy_of(&self, other: &Self) -> bool {
+        self.0.is_copy_of(&other.0)
+    }
+    pub fn slice(&self, start: usize, end: usize) -> Self {
+        Cow(self.0.slice(start..end))
+    }
+    pub fn into_slices(self, size: usize) -> Vec<Self> {
+        self.0.into_slices(size).map(Cow).collect()
+    }
+    pub fn write(&mut self, i: usize, x: f64) {
+        self.0.as_mut_slice()[i] = x;
+    }
+    pub fn truncate(&mut self, len: usize) {
+        self.0.truncate(len)
+    }
+    pub fn extend_from_slice(&mut self, other: &[f64]) {
+        self.0.extend_from_slice(other)
+    }
+    pub fn extend_from_vec(&mut self, other: Vec<f64>) {
+        self.0.extend_from_vec(other)
+    }
+    pub fn extend_from_cow(&mut self, other: Cow) {
+        self.0.extend_from_cowslice(other.0)
+    }
+    pub fn extend_repeat(&mut self, x: f64, count: usize) {
+        self.0.extend_repeat(&x, count)
+    }
+    pub fn extend_repeat_fill(&mut self, x: f64, left: bool, count: usize) {
+        let fill: crate::context::FillValue<f64> = crate::context::FillValue {
+            value: x,
+            side: left.then_some(crate::SubSide::Left),
+        };
+        self.0.extend_repeat_fill(&fill, count)
+    }
+    pub fn extend_repeat_slice(&mut self, s: &[f64], count: usize) {
+        self.0.extend_repeat_slice(s, count)
+    }
+    pub fn remove(&mut self, start: usize, end: usize) {
+        self.0.remove(start..end)
+    }
+    pub fn clear(&mut self) {
+        self.0.clear()
+    }
+    pub fn reserve(&mut self, n: usize) {
+        self.0.reserve(n)
+    }
+    pub fn split_off(&mut self, at: usize) -> Self {
+        Cow(self.0.split_off(at))
+    }
+    pub fn extend_iter(&mut self, v: Vec<f64>) {
+        self.0.extend(v)
+    }
+    pub fn into_vec(self) -> Vec<f64> {
+        self.0.into()
+    }
+}
+
+/// Build a `Value` whose number data is a window into a larger shared buffer.
+/// Returns (value, keeper) where keeper holds the whole buffer alive.
+pub fn num_slice_of_larger(data: &[f64], shape: &[usize], pad_front: usize, pad_back: usize) -> (Value, Cow) {
+    let mut all: Vec<f64> = Vec::new();
+    all.extend(std::iter::repeat_n(777.0, pad_front));
+    all.extend_from_slice(data);
+    all.extend(std::iter::repeat_n(888.0, pad_back));
+    let whole: CowSlice<f64> = all.into_iter().collect();
+    let win = whole.slice(pad_front..pad_front + data.len());
+    let mut arr = Array::<f64>::default();
+    arr.shape = shape.into();
+    arr.data = win;
+    (Value::Num(arr), Cow(whole))
+}
+
+/// Same for byte data
+pub fn byte_slice_of_larger(data: &[u8], shape: &[usize], pad_front: usize, pad_back: usize) -> (Value, Value) {
+    let mut all: Vec<u8> = Vec::new();
+    all.extend(std::iter::repeat_n(77u8, pad_front));
+    all.extend_from_slice(data);
+    all.extend(std::iter::repeat_n(88u8, pad_back));
+    let n = all.len();
+    let whole: CowSlice<u8> = all.into_iter().collect();
+    let win = whole.slice(pad_front..pad_front + data.len());
+    let mut arr = Array::<u8>::default();
+    arr.shape = shape.into();
+    arr.data = win;
+    let mut keeper = Array::<u8>::default();
+    keeper.shape = [n].as_slice().into();
+    keeper.data = whole;
+    (Value::Byte(arr), Value::Byte(keeper))
+}
+
+/// Whether two values share the same backing buffer window
+pub fn same_buffer(a: &Value, b: &Value) -> bool {
+    match (a, b) {
+        (Value::Num(a), Value::Num(b)) => a.data.is_copy_of(&b.data),
+        (Value::Byte(a), Value::Byte(b)) => a.data.is_copy_of(&b.data),
+        (Value::Char(a), Value::Char(b)) => a.data.is_copy_of(&b.data),
+        (Value::Complex(a), Value::Complex(b)) => a.data.is_copy_of(&b.data),
+        (Value::Box(a), Value::Box(b)) => a.data.is_copy_of(&b.data),
+        _ => false,
+    }
+}
+
+/// Force number storage to f64 (no shrinking)
+pub fn to_num_storage(v: &Value) -> Value {
+    match v {
+        Value::Byte(a) => {
+            let mut n: Array<f64> = a.convert_ref();
+            n.meta = a.meta.clone();
+            if n.meta.get_mut().is_some() {
+                let f = n.meta.flags & ArrayFlags::SORTEDNESS;
+                n.meta.reset_flags();
+                n.meta.or_sorted_flags(f);
+            }
+            Value::Num(n)
+        }
+        v => v.clone(),
+    }
+}
+
+/// Force byte storage when every element is an integer in 0..=255
+pub fn to_byte_storage(v: &Value) -> Option<Value> {
+    match v {
+        Value::Num(a) => {
+            if a.data.iter().all(|x| x.fract() == 0.0 && *x >= 0.0 && *x <= 255.0 && !(*x == 0.0 && x.is_sign_negative())) {
+                let mut b: Array<u8> = Array::new(a.shape.clone(), a.data.iter().map(|x| *x as u8).collect::<CowSlice<u8>>());
+                b.meta = a.meta.clone();
+                Some(Value::Byte(b))
+            } else {
+                None
+            }
+        }
+        Value::Byte(_) => Some(v.clone()),
+        _ => None,
+    }
+}
+
+#[allow(dead_code)]
+fn _unused(_: Complex) {}
